@@ -97,6 +97,10 @@ func BuildFunction(x *ast.FuncDecl, file *CodeContainer) *CodeFunction {
 			TypeValue: param.TypeValue,
 		})
 	}
+	// a declaration without a body (implemented outside Go) has no statements
+	if x.Body == nil {
+		return codeFunc
+	}
 	for _, item := range x.Body.List {
 		localVars, _ = BuildMethodCall(codeFunc, item, fields, localVars, file.Imports, file.PackageName)
 	}
